@@ -363,6 +363,12 @@ func genStreamsPlan(tp *simrt.Tape, seed uint64, tier string) any {
 			add(confOp{Kind: "close", C: c})
 			gone[c] = true
 		case 21: // a presenter names somebody else's stream in `replace`, or uses its id
+			if s := pickStream(-1, true); s != nil && tp.Chance(1, 4) {
+				// ... or renegotiates a stream of its own with an offer that
+				// names the stream itself in `replace`
+				add(confOp{Kind: "publish", C: s.c, V: s.id, Sub: c07Labels[0], Flag: true, Spoof: s.id})
+				break
+			}
 			if s := pickStream(-1, true); s != nil {
 				c := pickClient(func(i int) bool { return i != s.c && member(i) && canPresent[i] })
 				if c == s.c {
